@@ -66,3 +66,33 @@ contract(f"{TP}::AbstractTAP._tap_return_handler", props=["C19"],
                                              " and self.next_kill_chain_stage == old(self.next_kill_chain_stage))"),
                   ("success_changes_nothing", "implies(result, self.current_kill_chain_stage == old(self.current_kill_chain_stage))")],
          modifies=["self.current_kill_chain_stage"])
+
+# ---- data-manipulation red agent: a periodic agent with its own get_action ---------------------------------------------------------------------
+DM = "src/primaite/game/agent/scripted_agents/data_manipulation_bot.py"
+contract(f"{DM}::DataManipulationAgent.get_action", props=["C19"],
+         # the agent is asked once per step, so the scheduled step has not been passed yet when it is asked
+         requires=["self.config.agent_settings.variance >= 0", "timestep <= self.next_execution_timestep"],
+         ensures=[("acts_exactly_when_due", "(result[0] != 'do-nothing') == (timestep == old(self.next_execution_timestep))"),
+                  ("next_within_frequency_variance", "implies(result[0] != 'do-nothing',"
+                                                     " timestep + self.config.agent_settings.frequency - self.config.agent_settings.variance <= self.next_execution_timestep"
+                                                     " and self.next_execution_timestep <= timestep + self.config.agent_settings.frequency + self.config.agent_settings.variance)"),
+                  ("configured_action_only", "implies(result[0] != 'do-nothing', result[0] == 'node-application-execute'"
+                                             " and result[1]['application_name'] == self.config.agent_settings.target_application"
+                                             " and exists(j, 0, len(self.config.agent_settings.possible_start_nodes),"
+                                             " result[1]['node_name'] == self.config.agent_settings.possible_start_nodes[j]))"),
+                  ("idle_changes_nothing", "implies(result[0] == 'do-nothing', self.next_execution_timestep == old(self.next_execution_timestep))")],
+         modifies=["self.next_execution_timestep"], allocates=True)
+
+# ---- threat actors: a finished kill chain is either repeated or concluded, as configured --------------------------------------------------------
+contract(f"{TP}::AbstractTAP._tap_outcome_handler", props=["C19"], types={"selected_kill_chain_class": "Type[BaseKillChain]"},
+         ensures=[("unfinished_chain_untouched", "implies(old(self.current_kill_chain_stage) != BaseKillChain.SUCCEEDED and old(self.current_kill_chain_stage) != BaseKillChain.FAILED,"
+                                                 " unchanged())"),
+                  ("repeat_restarts_and_keeps_acting", "implies((old(self.current_kill_chain_stage) == BaseKillChain.SUCCEEDED or old(self.current_kill_chain_stage) == BaseKillChain.FAILED)"
+                                                       " and not old(self.actions_concluded) and self.config.agent_settings.repeat_kill_chain,"
+                                                       " self.current_kill_chain_stage == BaseKillChain.NOT_STARTED and self.actions_concluded == False)"),
+                  ("no_repeat_concludes", "implies((old(self.current_kill_chain_stage) == BaseKillChain.SUCCEEDED or old(self.current_kill_chain_stage) == BaseKillChain.FAILED)"
+                                          " and not self.config.agent_settings.repeat_kill_chain, self.actions_concluded == True"
+                                          " and self.current_kill_chain_stage == old(self.current_kill_chain_stage))")],
+         modifies=["self.current_kill_chain_stage", "self.next_kill_chain_stage", "self.actions_concluded", "self.chosen_action"], allocates=True)
+contract(f"{TP}::BaseKillChain.initial_stage", verify=False, note="abstract: the first stage of a kill chain (an enumeration member)",
+         ensures=[], modifies=[])
